@@ -155,5 +155,15 @@ def eval_nat_lists(tag, imports, defs, exprs, shard=400, timeout=900):
         res += vals
     return res
 
+class NotExact(ValueError):
+    """an implementation value that should be an exact integer (integer data, ring operations only) is not"""
+
 def zlist(vals):
-    return "[" + ";".join("(%d)" % int(v) for v in vals) + "]%Z"
+    out = []
+    for v in vals:
+        if isinstance(v, (int, np.integer)) and not isinstance(v, bool):
+            out.append("(%d)" % int(v)); continue
+        fv = float(v)
+        if fv != fv or fv in (float("inf"), float("-inf")) or fv != int(fv): raise NotExact("value %r is not an exact integer" % (v,))
+        out.append("(%d)" % int(fv))
+    return "[" + ";".join(out) + "]%Z"
